@@ -17,18 +17,8 @@ T_ = 'mmc:_BaseMMC._fit_full'
 OUTER, INNER = 'range(self.max_iter)', 'range(self.max_proj)'
 
 
-def ordinals():
-  fn = _P().func(T_)
-  loops = [n for n in ast.walk(fn) if isinstance(n, (ast.For, ast.While))]
-  loops.sort(key=lambda n: (n.lineno, n.col_offset))
-  out = {}
-  for k, n in enumerate(loops):
-    if isinstance(n, ast.For):
-      out[ast.unparse(n.iter)] = k
-  return out
-
-
-ORD = ordinals()
+from .loops import find_loop
+ORD = {OUTER: find_loop(T_, OUTER), INNER: find_loop(T_, INNER)}
 
 
 def feasible_psd(v, X):
